@@ -104,7 +104,14 @@ def _spec(draw, tier):
             spec["bg"].append({"mech": mech, "rows": rows_})
             sing = {"Na": [-47.0, -20.0], "K": [-45.0], "CaL": [-27.0], "Km": []}[mech]
             if sing and draw(st.booleans()):
-                morph["v"][rows_[0]] = draw(st.sampled_from(sing))
+                vs = draw(st.sampled_from(sing))
+                morph["v"][rows_[0]] = vs
+                if draw(st.booleans()):
+                    # ... and that very initial voltage is a differentiated quantity (a guard written with a single
+                    # `where` returns a NaN cotangent for the voltage exactly at the singular point)
+                    spec["assignments"] = [a for a in spec["assignments"] if a["key"] != "v"]
+                    spec["assignments"].append({"on": "nodes", "view": "select", "key": "v", "targets": [rows_[0]],
+                                                "init": [vs], "vals": [vs], "init_none": draw(st.booleans())})
     spec["phase"] = [draw(fl(0.1, 3.0)) for _ in range(3)]
     spec["dirs"] = [[draw(fl(-1.0, 1.0)) for _ in range(24)] for _ in range(2)]
     return spec
